@@ -70,6 +70,8 @@ type regWorld struct {
 	ids                []ecs.ID
 	ents               []*regEnt
 	nRes               int
+	resTypes           []reflect.Type
+	resIDs             []ecs.ResID
 	serial             int
 	fanned, relTargets bool
 	labels             map[string]bool
@@ -131,6 +133,47 @@ func (r *regWorld) checkRegistry() string {
 	if len(ids) < ecs.MaskTotalBits {
 		if _, ok := ecs.ComponentInfo(r.w, raw[len(ids)]); ok {
 			return fmt.Sprintf("ComponentInfo reports id %d which was never registered", len(ids))
+		}
+	}
+	return ""
+}
+
+// checkResRegistry: the resource registry is dense, stable and consistent, and a known type keeps
+// its ID however often it is looked up.
+func (r *regWorld) checkResRegistry(k int) string {
+	ids := ecs.ResourceIDs(r.w)
+	if len(ids) != len(r.resIDs) {
+		return fmt.Sprintf("ResourceIDs has %d entries, %d resource types were registered", len(ids), len(r.resIDs))
+	}
+	for i, id := range ids {
+		if id != r.resIDs[i] {
+			return fmt.Sprintf("ResourceIDs[%d] = %v, the type registered at that position got %v", i, id, r.resIDs[i])
+		}
+		if got, ok := ecs.ResourceType(r.w, id); !ok || got != r.resTypes[i] {
+			return fmt.Sprintf("ResourceType(%v) = %v,%v, registered type is %v", id, got, ok, r.resTypes[i])
+		}
+	}
+	// look a few known types up again (first, last, one that varies with the step)
+	n := len(r.resIDs)
+	for _, i := range []int{0, n - 1, k % max(n, 1)} {
+		if i < 0 || i >= n {
+			continue
+		}
+		var again ecs.ResID
+		if p := core.Call(func() { again = ecs.ResourceTypeID(r.w, r.resTypes[i]) }); p != nil {
+			return fmt.Sprintf("looking up the known resource type number %d panicked: %v", i+1, p)
+		}
+		if again != r.resIDs[i] {
+			return fmt.Sprintf("resource type number %d now gets id %v, it was registered with %v", i+1, again, r.resIDs[i])
+		}
+	}
+	nc := len(r.types)
+	for _, i := range []int{0, nc - 1, k % max(nc, 1)} {
+		if i < 0 || i >= nc || r.w.IsLocked() {
+			continue
+		}
+		if again := ecs.TypeID(r.w, r.types[i]); again != r.ids[i] {
+			return fmt.Sprintf("component type number %d now gets id %v, it was registered with %v", i+1, again, r.ids[i])
 		}
 	}
 	return ""
@@ -546,6 +589,20 @@ func (r *regWorld) apply(op regOp) string {
 			return fmt.Sprintf("ResourceType(%v) = %v,%v", id, got, ok)
 		}
 		r.nRes++
+		r.resTypes = append(r.resTypes, tp)
+		r.resIDs = append(r.resIDs, id)
+	case "reset":
+		// Reset removes entities and resources, never registrations: both registries must be
+		// exactly as before (checked after every op)
+		if p := core.Call(func() { r.w.Reset() }); p != nil {
+			return fmt.Sprintf("Reset panicked: %v", p)
+		}
+		for i := range r.ents {
+			r.ents[i] = nil
+		}
+		if len(r.types) > 0 || r.nRes > 0 {
+			r.label("Reset with registered types")
+		}
 	case "fillres":
 		for r.nRes <= ecs.MaskTotalBits {
 			if msg := r.apply(regOp{K: "regres"}); msg != "" {
@@ -575,6 +632,9 @@ func runRegCase(c *regReplay) (msg string, labels map[string]bool, nontrivial bo
 		if m := r.checkRegistry(); m != "" {
 			return fmt.Sprintf("after op %d %+v: %s", k, op, m), r.labels, r.nontri
 		}
+		if m := r.checkResRegistry(k); m != "" {
+			return fmt.Sprintf("after op %d %+v: %s", k, op, m), r.labels, r.nontri
+		}
 		if m := r.checkEntities(); m != "" {
 			return fmt.Sprintf("after op %d %+v: %s", k, op, m), r.labels, r.nontri
 		}
@@ -588,7 +648,7 @@ func runRegCase(c *regReplay) (msg string, labels map[string]bool, nontrivial bo
 
 func TestC16(t *testing.T) {
 	withStats(t, "C16", func(st *core.Stats) {
-		st.Rule = "sequences interleaving registrations of generated type shapes (ecs.Relation embedded first / embedded later / absent; structs, arrays, zero-sized, non-struct) with entity creation, Add/Assign/Remove/Set of components drawn with a bias to the newest and highest IDs, re-registration of known types, registration in a locked world, filling the registry to the limit and one registration more, relation tables that are retired, outlive further registrations and are reused, and the same for the resource registry; after every op: ComponentIDs/ComponentInfo dense, stable and consistent, IsRelation <=> relation embedded first, and every tracked entity is read through EVERY registered ID (Has/Get/Mask, value bytes, Query(All(id)) finds it, Query.Get == World.Get); rejected registrations leave the registry unchanged and the next successful one gets the expected ID; non-trivial = a component whose type was registered after an entity's table existed, in a later 16-ID layout chunk, was added to that entity and read back"
+		st.Rule = "sequences interleaving registrations of generated type shapes (ecs.Relation embedded first / embedded later / absent; structs, arrays, zero-sized, non-struct) with entity creation, Add/Assign/Remove/Set of components drawn with a bias to the newest and highest IDs, re-registration of known types, registration in a locked world, filling the registry to the limit and one registration more, relation tables that are retired, outlive further registrations and are reused, and the same for the resource registry, and World.Reset (registrations survive it); after every op: ResourceIDs/ResourceType dense, stable and consistent and known component and resource types looked up again keep their IDs, ComponentIDs/ComponentInfo dense, stable and consistent, IsRelation <=> relation embedded first, and every tracked entity is read through EVERY registered ID (Has/Get/Mask, value bytes, Query(All(id)) finds it, Query.Get == World.Get); rejected registrations leave the registry unchanged and the next successful one gets the expected ID; non-trivial = a component whose type was registered after an entity's table existed, in a later 16-ID layout chunk, was added to that entity and read back"
 		if path, ok := replaying(); ok {
 			var r regReplay
 			if err := core.ReadReplay(path, &r); err != nil {
@@ -611,10 +671,10 @@ func TestC16(t *testing.T) {
 					c.Ops = append(c.Ops, regOp{K: "new", T: []int{-1, 0}, E: 0})
 				}
 			}
-			kinds := []string{"reg", "reg", "reg", "reg", "rereg", "new", "new", "add", "add", "add", "rem", "write", "write", "rment", "lockreg", "regres", "fill", "fillres", "fan", "relnew", "relnew", "retire"}
+			kinds := []string{"reg", "reg", "reg", "reg", "rereg", "new", "new", "add", "add", "add", "rem", "write", "write", "rment", "lockreg", "regres", "fill", "fillres", "fan", "relnew", "relnew", "retire", "reset"}
 			for i := 0; i < nops; i++ {
 				k := rapid.SampledFrom(kinds).Draw(rt, "k")
-				if (k == "fill" || k == "fillres") && rapid.IntRange(0, 3).Draw(rt, "rare") != 0 {
+				if (k == "fill" || k == "fillres" || k == "reset") && rapid.IntRange(0, 3).Draw(rt, "rare") != 0 {
 					k = "reg"
 				}
 				op := regOp{K: k, Shape: rapid.IntRange(0, 5).Draw(rt, "shape"), E: rapid.IntRange(0, 7).Draw(rt, "e"), Tok: rapid.Uint32Range(1, 1<<20).Draw(rt, "tok")}
